@@ -328,6 +328,134 @@ func checkC13(c *Ctx, w *World) {
 	c.check(idOK && nins == 2, "C13.member", "endpoint.id == table key", p.pos(m.newEp.Pos()), "ids are set only by newEndpoint from its argument, and every table insert stores newEndpoint(key, …) under that key", "an endpoint can be stored under a key different from its id")
 	// who may write the table
 	m.whoMayWrite("C13.member", "multiEndpoint.endpoints", map[string][]string{fname(m.setEps): {"map-insert", "map-delete"}, fname(m.ctor): {"store"}})
+	// an endpoint that stays in the list keeps its object (its status, stamp and timer are what Current() is decided on):
+	// SetEndpoints removes an entry only when its key is not found — by a comma-ok lookup — in a set filled from every
+	// element of the new list
+	{
+		ndel := 0
+		for _, a := range m.ai.ByFn[m.setEps] {
+			if a.Field != "multiEndpoint.endpoints" || a.What != "map-delete" {
+				continue
+			}
+			ndel++
+			del := a.Instr.(*ssa.Call)
+			var scan *rangeLoop
+			for _, rl := range rangeLoops(m.setEps, func(v ssa.Value) bool { return isLoadOf(v, "multiEndpoint.endpoints") }) {
+				if rl.key(del.Call.Args[1]) {
+					scan = rl
+				}
+			}
+			good, why := scan != nil, "the removed key is not the key of a scan over the table"
+			if scan != nil {
+				listParam := m.setEps.Params[1]
+				filledFromList := func(mp ssa.Value) bool {
+					mk, isMk := stripConv(mp).(*ssa.MakeMap)
+					if !isMk {
+						return false
+					}
+					// (a range over a slice is an index loop in SSA: the key is the element at the loop's counter)
+					for _, fill := range loopsOf(m.setEps) {
+						if k, _ := fill.boundedKind(); k == "" {
+							continue
+						}
+						okFill := false
+						eachInstr(m.setEps, func(in ssa.Instruction) {
+							mu, isMU := in.(*ssa.MapUpdate)
+							if !isMU || mu.Map != ssa.Value(mk) || !fill.Blocks[mu.Block()] {
+								return
+							}
+							u, isU := stripConv(mu.Key).(*ssa.UnOp)
+							if !isU {
+								return
+							}
+							ia, isIA := u.X.(*ssa.IndexAddr)
+							if !isIA || !isVal(listParam)(ia.X) {
+								return
+							}
+							if ph, step := fill.counterStep(ia.Index); ph == nil || step != 1 {
+								return
+							}
+							for _, lt := range fill.Latch {
+								if !mu.Block().Dominates(lt) {
+									return
+								}
+							}
+							okFill = true
+						})
+						if okFill {
+							return true
+						}
+					}
+					return false
+				}
+				listed := boolAtom("listed", func(v ssa.Value) bool {
+					e, isE := stripConv(v).(*ssa.Extract)
+					if !isE || e.Index != 1 {
+						return false
+					}
+					l, isL := e.Tuple.(*ssa.Lookup)
+					return isL && l.CommaOk && scan.key(l.Index) && filledFromList(l.X)
+				})
+				kcs := newCondSpace(m.setEps, recOf(listed), "listed")
+				imp, wit := kcs.Implies(kcs.Reach(del), kcs.Not(kcs.Atom("listed")))
+				if !imp || !kcs.Seen("listed") {
+					good, why = false, "an endpoint can be removed although its name is in the new list (it would be re-created with a fresh state): "+wit
+					// second idiom: no set — the removal follows a scan of the list that found no equal element
+					// (`for _, e := range list { if e == k { continue outer } }; delete(table, k)`)
+					for _, inner := range loopsOf(m.setEps) {
+						if kk, _ := inner.boundedKind(); kk == "" || !scan.Blocks[inner.Header] || inner.Header == scan.Header || !inner.Header.Dominates(del.Block()) || inner.Blocks[del.Block()] {
+							continue
+						}
+						found := false
+						okExits := true
+						var eqSucc *ssa.BasicBlock
+						for b := range inner.Blocks {
+							iff, isIf := b.Instrs[len(b.Instrs)-1].(*ssa.If)
+							if !isIf {
+								continue
+							}
+							cmp, isCmp := iff.Cond.(*ssa.BinOp)
+							if !isCmp || (cmp.Op != token.EQL && cmp.Op != token.NEQ) {
+								continue
+							}
+							isElem := func(v ssa.Value) bool {
+								u, isU := stripConv(v).(*ssa.UnOp)
+								if !isU {
+									return false
+								}
+								ia, isIA := u.X.(*ssa.IndexAddr)
+								if !isIA || !isVal(listParam)(ia.X) {
+									return false
+								}
+								ph, step := inner.counterStep(ia.Index)
+								return ph != nil && step == 1
+							}
+							if (isElem(cmp.X) && scan.key(cmp.Y)) || (isElem(cmp.Y) && scan.key(cmp.X)) {
+								found = true
+								eqSucc = b.Succs[0]
+								if cmp.Op == token.NEQ {
+									eqSucc = b.Succs[1]
+								}
+							}
+						}
+						if !found || eqSucc == nil || blockReachesAvoiding(eqSucc, del.Block(), map[*ssa.BasicBlock]bool{scan.Header: true}) {
+							continue
+						}
+						for _, ex := range inner.exits() {
+							if ex[0] != inner.Header && !(ex[1] == eqSucc || !blockReachesAvoiding(ex[1], del.Block(), map[*ssa.BasicBlock]bool{scan.Header: true})) {
+								okExits = false
+							}
+						}
+						if okExits {
+							good, why = true, ""
+						}
+					}
+				}
+			}
+			c.check(good, "C13.member", "SetEndpoints removes only endpoints that left the list", p.ipos(del), "delete(table, k) only when k is not found (comma-ok) in the set built from every element of the new list: surviving endpoints keep their object", why)
+		}
+		c.floor("C13.member:keep", ndel, 1)
+	}
 
 	reevalRules(m, c, func(r string) string { return r })
 
